@@ -8,6 +8,7 @@ import (
 	"os"
 	"runtime"
 	"sort"
+	"strings"
 	"sync"
 	"sync/atomic"
 	"time"
@@ -62,12 +63,20 @@ type collector struct {
 	count map[string]int
 }
 
-func (c *collector) fail(sig string, index int, input any, order, info string) {
+// fail records one failing evaluation. variant separates different faces of
+// one defect (e.g. false positive / false negative) so that the replay file
+// of the signature carries the smallest input of each.
+func (c *collector) fail(sig, variant string, index int, input any, order, info string) {
 	c.mu.Lock()
 	defer c.mu.Unlock()
 	c.count[sig]++
-	if cur, ok := c.first[sig]; !ok || index < cur.index {
-		c.first[sig] = example{index, map[string]any{"input": input, "lt": order, "info": info}}
+	k := sig + "\x00" + variant
+	if cur, ok := c.first[k]; !ok || index < cur.index {
+		d := map[string]any{"input": input, "lt": order, "info": info}
+		if variant != "" {
+			d["case"] = variant
+		}
+		c.first[k] = example{index, d}
 	}
 }
 
@@ -205,7 +214,10 @@ type ctx[T comparable] struct {
 	stable func(a, b T) bool // nil, or: "a was before b in the input"
 }
 
-func (x *ctx[T]) fail(sig, info string) { x.c.fail(sig, x.index, x.input, x.ord.name, info) }
+func (x *ctx[T]) fail(sig, info string) { x.c.fail(sig, "", x.index, x.input, x.ord.name, info) }
+func (x *ctx[T]) failCase(sig, variant, info string) {
+	x.c.fail(sig, variant, x.index, x.input, x.ord.name, info)
+}
 
 func guard(onPanic func(p any), f func()) {
 	defer func() {
@@ -261,11 +273,11 @@ func (x *ctx[T]) isSorted() {
 		got := l.IsSorted(x.ord.lt)
 		i := firstOutOfOrder(x.input, x.ord.lt)
 		if want := i < 0; got != want {
-			why := "no adjacent pair is out of order"
+			why, variant := "no adjacent pair is out of order", "sorted list reported unsorted"
 			if i >= 0 {
-				why = fmt.Sprintf("element %d is lt element %d", i, i-1)
+				why, variant = fmt.Sprintf("element %d is lt element %d", i, i-1), "unsorted list reported sorted"
 			}
-			x.fail("issorted/wrong-answer", fmt.Sprintf("IsSorted=%v, expected %v: %s", got, want, why))
+			x.failCase("issorted/wrong-answer", variant, fmt.Sprintf("IsSorted=%v, expected %v: %s", got, want, why))
 			return
 		}
 		if msg := usable(l, x.input, x.extra); msg != "" {
@@ -459,15 +471,23 @@ wait:
 		}
 	}
 
-	sigs := make([]string, 0, len(c.first))
-	for s := range c.first {
-		sigs = append(sigs, s)
+	keys := make([]string, 0, len(c.first))
+	for k := range c.first {
+		keys = append(keys, k)
+	}
+	sort.Slice(keys, func(i, j int) bool { return c.first[keys[i]].index < c.first[keys[j]].index })
+	bySig := map[string][]any{}
+	var sigs []string
+	for _, k := range keys {
+		sig := k[:strings.IndexByte(k, 0)]
+		if _, ok := bySig[sig]; !ok {
+			sigs = append(sigs, sig)
+		}
+		bySig[sig] = append(bySig[sig], c.first[k].data)
 	}
 	sort.Strings(sigs)
-	for _, s := range sigs {
-		d := c.first[s].data
-		d["failing_evaluations"] = c.count[s]
-		r.Violation(s, d)
+	for _, sig := range sigs {
+		r.Violation(sig, map[string]any{"minimal": bySig[sig], "failing_evaluations": c.count[sig]})
 	}
 
 	nd := int(done.Load())
